@@ -16,7 +16,7 @@
 //!   poll <fingerprint>                 => "<common|better|worse> <tip|-> <0|1> r<requests the source saw> | D <id> <h> C <id> <h> … | cache <ids in the SpvClient's header cache afterwards>"
 //!                                      (the listener is the TUPLE adapter over two recording components; oracle: both see the same chain, 0 before 1)
 //!                                      or "err <t|p> r<requests>" with the BlockSourceErrorKind (transient / persistent) of the returned error
-//!   init <id:height:p1,p2,-,…>…        => "ok <best> r<requests> cache <ids…> | <listener 0 notifs> | …"  or "err r<requests> | …"
+//!   init <id:height:p1,p2,-,…>…        => "ok <best> r<requests> cache <ids…> | <listener 0 notifs> | …"  or "err <t|p> r<requests> | …" (t|p = BlockSourceErrorKind of the returned error)
 use ldk_verif_harness::common::*;
 use bitcoin::absolute::LockTime;
 use bitcoin::block::{Block, Header, Version};
@@ -449,9 +449,15 @@ fn run_init<'t>(c: &mut Case, g: &mut Gen, t: &'t Tree, src: &Source, stats: &mu
 	let mut segs = vec![];
 	let mut ret = None;
 	let kind;
+	let mut init_err_transient: Option<bool> = None;
 	match r {
 		Err(p) => { segs.push(format!("panic {}", p)); kind = "panic"; },
-		Ok(Err(_)) => { segs.push(format!("err r{}", nreq)); kind = "err"; },
+		Ok(Err(e)) => {
+			// r6: the BlockSourceErrorKind of a failed start-up sync is part of the answer (before: only Ok / Err)
+			let transient = e.kind() == BlockSourceErrorKind::Transient;
+			segs.push(format!("err {} r{}", if transient { "t" } else { "p" }, nreq)); kind = "err";
+			init_err_transient = Some(transient);
+		},
 		Ok(Ok((cache, hdr))) => {
 			let bid = t.by_hash[&hdr.header.block_hash()];
 			let cached: Vec<String> = t.blocks.iter().filter(|b| cache.look_up(&b.hash).is_some()).map(|b| b.id.to_string()).collect();
@@ -464,6 +470,15 @@ fn run_init<'t>(c: &mut Case, g: &mut Gen, t: &'t Tree, src: &Source, stats: &mu
 	// ---- oracle -----------------------------------------------------------------------------
 	let describe = |what: &str, c: &Case| format!("{} :: {} best={} hidden={:?} sched={:?} triggered={:?} answer={} :: {}", what, op, best, hidden, sched, triggered, ans, c.ctx());
 	if kind == "panic" { c.rec.oracle_fail(describe("synchronize_listeners panicked", c)); }
+	if let Some(tr) = init_err_transient {
+		// a Transient error invites the caller to simply retry: it may only be returned when the block source itself answered a
+		// transient error to some request of this sync — everything the library refuses (Validate, check_builds_on, "header not
+		// found", an unresolvable locator) is Persistent  (theorem init_transient_error_needs_transient_answer)
+		let source_was_transient = triggered3.iter().any(|t| t.2 == "t");
+		if tr && !source_was_transient { c.rec.oracle_fail(describe("synchronize_listeners returned a TRANSIENT error although the block source never answered a transient error", c)); }
+		let first = triggered3.first().map(|t| if t.2 == "t" { "first-failure-transient" } else { "first-failure-not-transient" }).unwrap_or("no-scheduled-failure");
+		*c.rec.classes.entry(format!("init+err-kind-{}:{}", if tr { "transient" } else { "persistent" }, first)).or_insert(0) += 1;
+	}
 	let mut depth = 0usize;
 	for (i, e) in evs.iter().enumerate() {
 		let mut chain = t.path(starts[i]);
